@@ -39,6 +39,11 @@ type Join struct {
 	Feats  []string `json:"feats"` // "role:feature"
 	Local  bool     `json:"local"`
 	Q      int      `json:"q"` // router-to-client queue size, 0 = default
+	// Tr: transport of a network session: "" = in-process linked peers (reporting
+	// IsLocal() = false), "rs-json|rs-msgpack|rs-cbor" = rawsocket over an
+	// in-memory pipe, "ws-json|ws-msgpack|ws-cbor" = websocket over an
+	// in-memory connection (C15)
+	Tr string `json:"tr"`
 }
 
 // Hello describes the first message of a handshake (C09).
